@@ -964,7 +964,38 @@ func (c *Compiler) codeToOpcode(ctx *compileContext, typ *runtime.Type, code Cod
 	codes := code.ToOpcode(ctx)
 	codes.Last().Next = newEndOp(ctx, typ)
 	c.linkRecursiveCode(ctx)
+	if structCode, ok := code.(*StructCode); ok && !structCode.isIndirect {
+		// after the recursive references were linked: they work on copies of the
+		// program, which are entered with the address of the struct
+		convertDirectStructValue(codes.First())
+	}
 	return codes.First()
+}
+
+// convertDirectStructValue adjusts the program of a root struct that is stored directly in the
+// interface word ( a struct whose only field is a pointer ): what the head opcode hands to the
+// value opcode is then the pointer itself, not the address of the field. The interface and
+// recursive opcodes, which have no struct head variant of their own, follow one pointer less.
+func convertDirectStructValue(head *Opcode) {
+	if head.Op != OpStructHead && head.Op != OpStructHeadOmitEmpty {
+		return
+	}
+	value := head.Next
+	if value == nil || value.PtrNum == 0 {
+		return
+	}
+	switch value.Op {
+	case OpInterfacePtr:
+		value.PtrNum--
+		if value.PtrNum == 0 {
+			value.Op = OpInterface
+		}
+	case OpRecursivePtr:
+		value.PtrNum--
+		if value.PtrNum == 0 {
+			value.Op = OpRecursive
+		}
+	}
 }
 
 func (c *Compiler) linkRecursiveCode(ctx *compileContext) {
